@@ -18,7 +18,7 @@ from concurrent.futures import ThreadPoolExecutor
 ROOT = os.path.dirname(os.path.dirname(os.path.abspath(__file__)))
 OUT = os.path.join(ROOT, "campaigns", "none")
 SITES = os.path.join(OUT, "sites.json")
-RESULTS = os.path.join(OUT, "results.json")
+RESULTS = os.environ.get("NC_RESULTS") or os.path.join(OUT, "results.json")
 PAT_NOT = re.compile(r"([A-Za-z_][\w\.]*(?:\[[^\]]*\])?(?:\([^()]*\))?) is not None")
 PAT_IS = re.compile(r"([A-Za-z_][\w\.]*(?:\[[^\]]*\])?(?:\([^()]*\))?) is None")
 DESEL = ["--deselect", "tests/test_name.py::NameTestCase::testFromUnicodeIDNA2008",
